@@ -89,8 +89,10 @@ func maybeInjectId(ctx *Context, id string, fact map[string]interface{}, writing
 			if have {
 				previous, _ := existing.(string)
 				if previous != id {
-					Log(DEBUG, ctx, "maybeInjectId", "existing", existing, "id", id)
-					panic("overwrite")
+					// The given fact claimed another id.  The
+					// id it is stored under wins.
+					Log(WARN, ctx, "maybeInjectId", "existing", existing, "id", id)
+					return true
 				} else {
 					return false // No change
 				}
